@@ -57,6 +57,12 @@ SEEDS = {
     "C05c-diffusion-capped-damping-not": ("C05", "e1/cell^2 between 1/4 and 1/2: only the diffusion coefficient is capped, the energy spread settles below 1 and the profile violates the Haissinski relation", ["C04"]),
     "C06c-lone-bunch-readback-at-zero": ("C06", "exactly one filled bucket whose bucket number is not 0 (trailing empty buckets): the wake is read back at cell 0 instead of bucket*spacing", ["C08"]),
     "C07c-stale-cutoff-filter": ("C07", "the same field object: updateCSR(fc>0) and later updateCSR(0): the cached high-pass filter is not reset, the spectrum stays filtered", ["C18"]),
+    "C08c-fptype-none-shortcut-one-bunch": ("C08", "FPType 0 with a Fokker-Planck map present and two or more bunches: the identity shortcut copies bunch 0's rows only, later bunches' slices are never written", ["C04"]),
+    "C09c-normalize-skipped-when-total-is-one": ("C09", "more than one bucket, a measured total within one float epsilon of 1 and populations that differ from the set shares (e.g. data in a bucket the pattern declares empty): normalize() returns early", []),
+    "C11c-loaded-grid-energy-axis-from-q": ("C11", "start from a results file with PhaseSpaceShiftY != PhaseSpaceShiftX: the loaded grid's energy axis is built from the position extents", []),
+    "C13c-quoted-strings-in-cfg": ("C13", "a string option (output, tracking, Impedance, InitialDistFile) containing a blank or tab: written in double quotes, which the config reader keeps as part of the value", []),
+    "C14c-setup-sigint-erased-by-h5-create": ("C14", "a signal arriving during set-up (before the results file is created) in a run that writes an HDF5 file: the flag is overwritten, the run continues to the end", []),
+    "C10c-stored-impedance-is-radiation-impedance": ("C10", "a dynamics impedance with anything besides single-bucket CSR (wall, collimator, file) or more than one bucket: /Impedance stores the radiation impedance, not the one the stored wake was computed with", []),
     "C10-": ("C10", "", []),
     "C17-": ("C17", "", []),
 }
